@@ -38,6 +38,12 @@ JAVA_CP = "/opt/veriftools/tla/tla2tools.jar:/opt/veriftools/tla/CommunityModule
 SYNTAX_CODES = {100, 300, 301, 302, 335, 343, 344, 346, 350, 390}
 LAYOUTS = {"quick": 2, "thorough": 3}
 MUTANTS = {"quick": 700, "thorough": 12000}
+PARALLEL_TLC = 5          # TLC runs of the fault family at a time, 2 workers each
+# every kind of syntax node (spec/PenneAst.tla) must occur in the modules whose faults are judged (vacuity guard)
+NODE_TAGS = {"module", "fn", "head", "const", "struct", "opaque struct", "word", "import", "param", "member", "prim", "named", "ptr", "view",
+             "tarray", "tarrayc", "slice", "endless", "arraylike", "var", "set", "call", "builtin call", "loop", "goto", "label", "if", "block",
+             "bin+", "bin-", "bin*", "bin&", "bin|", "bin<<", "bin..", "as", "cast", "un", "len", "sizeof", "int", "bool", "char", "str",
+             "fcall", "builtin fcall", "array", "structural", "field", "paren", "deref", "idx", "mem"}
 
 # ---------------------------------------------------------------------------------------------
 # token classes -> tokens (PenneAst records, rendered by harness/src/grammar/render.rs)
@@ -60,6 +66,7 @@ SPELL = {
             {"k": "int", "v": "5", "suffix": "", "h": {"base": 2, "digits": [1, 0, 1]}}, {"k": "int", "v": "7", "suffix": "usize"}],
     "lit": [{"k": "bool", "v": True}, {"k": "char", "v": 97}, {"k": "bool", "v": False}],
     "str": [{"k": "str", "bytes": [115]}, {"k": "str", "bytes": [97, 46, 112, 110]}],
+    "strx": [{"k": "str", "bytes": [97, 255]}],
 }
 KEYWORDS = {"fn", "var", "const", "if", "goto", "loop", "else", "cast", "as", "import", "pub", "extern", "struct"}
 # what the real lexer calls the tokens (harness: Debug name) -> class; must agree with Trace_Syntax.tla ClassOfKind
@@ -72,7 +79,7 @@ KIND_CLASS = {
     "Goto": "goto", "Loop": "loop", "Else": "else", "Cast": "cast", "As": "as", "Import": "import", "Pub": "pub", "Extern": "extern",
     "Struct": "struct", "Word8": "word", "Word16": "word", "Word32": "word", "Word64": "word", "Word128": "word",
     "Identifier": "id", "IdReturn": "return", "Builtin": "bi", "NakedDecimal": "dec", "BitInteger": "int", "SuffixedInteger": "int",
-    "CharLiteral": "lit", "Bool": "lit", "StringLiteral": "str", "Type": "ty", "TypeVoid": "void", "Error": "err",
+    "CharLiteral": "lit", "Bool": "lit", "StringLiteral": "str", "StringLiteralNotUtf8": "strx", "Type": "ty", "TypeVoid": "void", "Error": "err",
 }
 
 
@@ -96,7 +103,7 @@ def text_of(tok):
     if k == "char":
         return "'%s'" % chr(tok["v"])
     if k == "str":
-        return '"%s"' % bytes(tok["bytes"]).decode("latin-1")
+        return '"%s"' % "".join(chr(b) if 32 <= b < 127 and b not in (34, 92) else "\\x%02X" % b for b in tok["bytes"])
     if k == "int":
         h = tok.get("h")
         if h:
@@ -113,8 +120,8 @@ def text_of(tok):
 # ---------------------------------------------------------------------------------------------
 def run_tlc(module, cfg, tag, workers=4, timeout=900, heap="4g", coverage=False):
     os.makedirs(common.WORK, exist_ok=True)
-    out_path = os.path.join(common.WORK, "syntax-%s.out" % tag)
-    metadir = os.path.join(common.WORK, "md-syntax-%s" % tag)
+    out_path = os.path.join(common.WORK, "syntax-%s-%d.out" % (tag, os.getpid()))
+    metadir = os.path.join(common.WORK, "md-syntax-%s-%d" % (tag, os.getpid()))
     subprocess.run(["rm", "-rf", metadir])
     cmd = ["timeout", str(timeout), "java", "-Xss1g", "-Xmx" + heap, "-XX:+UseParallelGC", "-cp", JAVA_CP, "tlc2.TLC",
            "-workers", str(workers), "-metadir", metadir, "-cleanup", "-noGenerateSpecTE"]
@@ -157,6 +164,20 @@ def run_tlc(module, cfg, tag, workers=4, timeout=900, heap="4g", coverage=False)
         log(res["tail"])
         raise common.ToolError("TLC failed on %s/%s (exit %s), see %s" % (module, cfg, p.returncode, out_path))
     return res
+
+
+def scratch(name):
+    """scratch files carry the process id: several checks may run this part at the same time"""
+    base, ext = os.path.splitext(name)
+    return os.path.join(common.WORK, "%s-%d%s" % (base, os.getpid(), ext))
+
+
+def cleanup():
+    for f in glob.glob(os.path.join(common.WORK, "syntax-*-%d.*" % os.getpid())) + glob.glob(os.path.join(common.WORK, "syntax-*-%d.*.ndjson" % os.getpid())):
+        try:
+            os.remove(f)
+        except OSError:
+            pass
 
 
 def iter_prints(path, tag="CASE"):
@@ -238,17 +259,22 @@ def judge(fam, case_key, classes, texts, verdict, obs, fnd, stats, strict_after,
         return
     alpha_accepts = not ap and not obs.get("apx")
     if af.get("p"):
+        # same key format as the C02 check (file | message), so that its open known findings apply
         stats["alpha_later_stage_panics"] += 1
-        fnd.note("first generation panics after the parse stage (left to C02): %s" % str(af["p"])[:120], example(""))
+        loc, _, msg = str(af["p"]).partition(" | ")
+        fnd.add("panic", "%s | %s | syntax part" % (loc, re.sub(r"\d+", "N", msg)[:120]),
+                example("the first generation panics after the parse stage (stage %s)" % af.get("stage")))
     if d["o"] == "panic":
         fnd.add("syntax-delta-panic", str(d.get("p"))[:160], example("the second-generation front end panicked"))
     if v == "valid":
         if not alpha_accepts:
             code = (ap or [[obs.get("apx")]])[0][0]
-            fnd.add("syntax-alpha-rejects-valid", "E%s %s" % (code, shape(texts, (ap or [[0, 1]])[0][1])),
+            at = (ap or [[0, 1]])[0][1]
+            fnd.add("syntax-alpha-rejects-valid", "E%s at `%s`" % (code, " ".join(classes[max(0, at - 3):at])),
                     example("R: valid; the first-generation parser reports a syntax error"))
         elif d["o"] == "rej":
-            fnd.add("syntax-delta-rejects-valid", "E%s %s" % (d["d"][0][0] if d["d"] else "?", shape(texts, d["d"][0][1] if d["d"] else 1)),
+            at = d["d"][0][1] if d["d"] else 1
+            fnd.add("syntax-delta-rejects-valid", "E%s at `%s`" % (d["d"][0][0] if d["d"] else "?", " ".join(classes[max(0, at - 3):at])),
                     example("R: valid; the second-generation parser rejects"))
         elif d["o"] == "ok":
             if obs.get("teq") is False:
@@ -257,12 +283,17 @@ def judge(fam, case_key, classes, texts, verdict, obs, fnd, stats, strict_after,
                 stats["valid_both_accept_same_tree"] += 1
         return
     if v == "unc":
+        u = verdict["u"]
+        site = "`%s [%s]`" % (" ".join(classes[max(0, u - 3):u - 1]), classes[u - 1] if 0 < u <= n else "EOF")
+        stats["unc_alpha_%s_delta_%s" % ("accepts" if alpha_accepts else "rejects", d["o"])] += 1
         if alpha_accepts != (d["o"] == "ok"):
-            fnd.note("unconstrained sequence: first generation %s, second generation %s" % ("accepts" if alpha_accepts else "rejects", d["o"]))
+            fnd.note("unconstrained sequence: first generation %s, second generation %s: extension at %s" %
+                     ("accepts" if alpha_accepts else "rejects", d["o"], site), {"source_tokens": " ".join(texts)[:300]})
         return
     # ---- invalid ----------------------------------------------------------------------------------------
     lo, hi = verdict["lo"], verdict["hi"]
-    key_shape = "expected %s at %s" % (verdict["exp"], shape(texts, hi))
+    # the grammar position names the shape: what was expected after which two tokens (classes), not the individual input
+    key_shape = "after `%s` expected %s" % (" ".join(classes[max(0, hi - 3):hi - 1]), verdict["exp"])
     if alpha_accepts:
         if af["ok"]:
             fnd.add("syntax-alpha-accepts-invalid", key_shape, example("R: invalid; the first generation compiles it"))
@@ -275,11 +306,11 @@ def judge(fam, case_key, classes, texts, verdict, obs, fnd, stats, strict_after,
         if f is None:
             fnd.add("syntax-alpha-no-syntax-error", key_shape, example("R: invalid; no diagnostic of the syntax family"))
         elif f[2] < lo:
-            fnd.add("syntax-alpha-location", "E%d ends %d token(s) before the window | %s" % (f[0], lo - f[2], key_shape),
+            fnd.add("syntax-alpha-location", "E%d ends before the window | %s" % (f[0], key_shape),
                     example("R: invalid at token %d, window %d..%d; the first syntax diagnostic covers tokens %d..%d" % (hi, lo, hi, f[1], f[2])))
         elif f[1] > hi:
             if strict_after and not verdict.get("soft"):
-                fnd.add("syntax-alpha-location", "E%d starts %d token(s) after the window | %s" % (f[0], f[1] - hi, key_shape),
+                fnd.add("syntax-alpha-location", "E%d starts after the window | %s" % (f[0], key_shape),
                         example("R: invalid at token %d, window %d..%d; the first syntax diagnostic covers tokens %d..%d" % (hi, lo, hi, f[1], f[2])))
             else:
                 stats["alpha_later_fault_reported"] += 1
@@ -333,7 +364,7 @@ def part_sequences(rep, tier, seed, fnd, stats):
         ctxs = {x["name"]: x for x in c}
     if not ctxs:
         raise common.ToolError("MC_SyntaxSeq printed no contexts")
-    cases_path = os.path.join(common.WORK, "syntax-seq-cases.ndjson")
+    cases_path = scratch("syntax-seq-cases.ndjson")
     verdicts = []
     with open(cases_path, "w") as out:
         for i, c in enumerate(iter_prints(r["output"])):
@@ -344,7 +375,7 @@ def part_sequences(rep, tier, seed, fnd, stats):
             verdicts.append((c["c"], len(c["s"]), c["v"], c["lo"], c["hi"], c["u"], c["exp"], c["soft"], classes))
     total = len(verdicts)
     os.remove(r["output"])
-    obs_path = os.path.join(common.WORK, "syntax-seq-obs.ndjson")
+    obs_path = scratch("syntax-seq-obs.ndjson")
     common.pvh(["replay", cases_path, obs_path, k, seed], exe_name=EXE, env=PVH_ENV)
     n = 0
     samples = []
@@ -388,13 +419,17 @@ def apply_fault(toks, ks, fl, salt):
 def part_faults(rep, tier, seed, fnd, stats):
     import concurrent.futures
     from . import syntax_cfgs
-    k = {"quick": 1, "thorough": 2}[tier]
-    foci = list(syntax_cfgs.FOCI)
+    k = 1
+    layout_arg = {"quick": 100, "thorough": 101}[tier]        # quick: single spaces; thorough: one seeded random layout
+    t_start = time.time()
+    foci = syntax_cfgs.foci(tier)
     timeout = {"quick": 300, "thorough": 1500}[tier]
-    with concurrent.futures.ThreadPoolExecutor(max_workers=4) as ex:
+    with concurrent.futures.ThreadPoolExecutor(max_workers=PARALLEL_TLC) as ex:
         results = dict(zip(foci, ex.map(lambda f: run_tlc("MC_SyntaxGrammar", "MC_SyntaxGrammar_%s_%s.cfg" % (f, tier),
-                                                          "gr-%s-%s" % (f, tier), workers=2, timeout=timeout, heap="3g", coverage=True), foci)))
+                                                          "gr-%s-%s" % (f, tier), workers=2, timeout=timeout, heap="2g"), foci)))
+    log("[syntax] faults: TLC on %d foci took %.1fs" % (len(foci), time.time() - t_start))
     states = transitions = modules = faults = 0
+    t_replay = t_judge = 0.0
     coverage = collections.Counter()
     per_focus = {}
     samples = []
@@ -406,22 +441,25 @@ def part_faults(rep, tier, seed, fnd, stats):
                                    "by the recogniser (or a token has no class): the specification is inconsistent" % (focus, r["violated"]))
         states += r["states"]
         transitions += r["transitions"]
-        for prod, cnt in r["coverage"].items():
-            coverage[prod] += cnt
-        cases_path = os.path.join(common.WORK, "syntax-gr-cases.ndjson")
+        cases_path = scratch("syntax-gr-cases.ndjson")
         meta = []
         nmod = 0
         with open(cases_path, "w") as out:
             for c in iter_prints(r["output"]):
                 nmod += 1
+                for tag in c["tags"]:
+                    coverage[tag] += 1
                 ks = list(c["ks"])
                 for fl in sorted(c["faults"], key=lambda x: (x["i"], x["f"], x["k"])):
                     toks, classes = apply_fault(c["toks"], ks, fl, seed + len(meta))
                     out.write(json.dumps({"id": len(meta), "toks": toks}, separators=(",", ":")) + "\n")
                     meta.append((fl, classes))
         os.remove(r["output"])
-        obs_path = os.path.join(common.WORK, "syntax-gr-obs.ndjson")
-        common.pvh(["replay", cases_path, obs_path, k, seed], exe_name=EXE, env=PVH_ENV)
+        obs_path = scratch("syntax-gr-obs.ndjson")
+        t1 = time.time()
+        common.pvh(["replay", cases_path, obs_path, layout_arg, seed], exe_name=EXE, env=PVH_ENV)
+        t_replay += time.time() - t1
+        t1 = time.time()
         n = 0
         with open(cases_path) as cf:
             for case_line, o in zip(cf, read_obs(obs_path)):
@@ -435,40 +473,417 @@ def part_faults(rep, tier, seed, fnd, stats):
                 layouts = [{"crash": o["crash"]}] if "crash" in o else expand_layouts(o)
                 for j, ob in enumerate(layouts):
                     ex_ = lambda msg, j=j, ob=ob: {"family": "faults", "focus": focus, "fault": {"i": fl["i"], "f": fl["f"], "k": fl["k"]}, "case": case,
-                                                   "layout": j, "source_tokens": " ".join(texts), "verdict": verdict,
+                                                   "layout": layout_arg - 100, "source_tokens": " ".join(texts), "verdict": verdict,
                                                    "observation": {kk: vv for kk, vv in ob.items() if kk != "k"}, "message": msg}
                     judge("fault", n, classes, texts, verdict, ob, fnd, stats, True, ex_)
                 if len(samples) < 3 and fl["v"] == "unc":
                     samples.append({"focus": focus, "fault": fl["f"], "source_tokens": " ".join(texts), "verdict": "unc"})
         if n != len(meta):
             raise common.ToolError("replay returned %d observations for %d cases" % (n, len(meta)))
+        t_judge += time.time() - t1
         per_focus[focus] = {"modules": nmod, "faults": len(meta), "states": r["states"], "tlc_wall": r["wall"]}
         modules += nmod
         faults += len(meta)
-    missing = [p for p in grammar_cfgs.ALL if coverage.get(p, 0) == 0]
+    missing = sorted(t for t in NODE_TAGS if coverage.get(t, 0) == 0)
     if missing:
-        raise common.ToolError("vacuity: productions of PenneGrammar never applied in the fault family: %s" % missing)
+        raise common.ToolError("vacuity: kinds of syntax nodes that occur in no module of the fault family: %s" % missing)
+    log("[syntax] faults: replay %.1fs, comparison %.1fs" % (t_replay, t_judge))
     log("[syntax] faults: %d derived modules all accepted by the recogniser (invariant Accepted), %d single-token faults x %d layouts" % (modules, faults, k))
     return {"states": states, "transitions": transitions, "modules": modules, "cases": faults, "layouts": k, "per_focus": per_focus,
-            "production_coverage": dict(coverage), "samples": samples}
+            "modules_per_node_kind": dict(coverage), "samples": samples}
 
 
 # ---------------------------------------------------------------------------------------------
-def run_part(rep, tier, seed, selftest, parts=None):
-    """parts: subset of {"seq", "faults", "corpus"} (default: all)."""
-    common.build_harness(EXE)
-    os.makedirs(common.WORK, exist_ok=True)
-    parts = set(parts or ("seq", "faults", "corpus"))
+# (3) impl -> spec: single-token mutants of corpus files, judged by TLC over the real token stream
+# ---------------------------------------------------------------------------------------------
+CHUNK = 512     # Trace_Syntax.tla Chunk
+
+
+def corpus_files():
+    files = []
+    for pat in ("tests/samples/**/*.pn", "examples/**/*.pn", "core/**/*.pn", "vendor/**/*.pn"):
+        files += glob.glob(os.path.join(common.REPO, pat), recursive=True)
+    out = []
+    for f in sorted(set(files)):
+        try:
+            open(f, encoding="utf-8").read()        # (two samples are deliberately not UTF-8: lexical subject)
+            out.append(f)
+        except UnicodeDecodeError:
+            pass
+    return out
+
+
+def trace_record(m):
+    """what Trace_Syntax.tla reads: the real token stream and the digest of the observation (data shaping only)"""
+    o = m["o"]
+    ap = o.get("ap") or []
+    f = first_syntax(ap)
+    af = o["af"]
+    acc = not ap and not o.get("apx") and not o.get("app")
+    fail = (not af["ok"]) and bool(af["d"])
+    # a panic after the parse stage is C02's subject: the clause `fails with a diagnostic` is then not judged here
+    if af.get("p") and ap:
+        fail = True
+    teq = "na" if "teq" not in o else ("yes" if o["teq"] else "no")
+    strict = bool(m.get("base_ok")) and m["mut"]["op"] in ("del", "dup", "rep", "ins")
+    return {"id": m["id"], "k": o["k"], "a": {"acc": acc, "fail": fail, "t": [f[1], f[2]] if f else []}, "d": {"o": o["d"]["o"]},
+            "teq": teq, "strict": strict}
+
+
+def steps_of(rec):
+    return (len(rec["k"]) + CHUNK - 1) // CHUNK + 2
+
+
+def validate(records, tag, chunks):
+    """-> (verdicts by id, ids of rejected runs)"""
+    verdicts, rejected = {}, []
+    if not records:
+        return verdicts, rejected
+    chunks = max(1, min(chunks, len(records)))
+    todo = []
+    for i in range(chunks):
+        part = records[i::chunks]
+        path = os.path.join(common.WORK, "syntax-trace-%s-%d.%d.ndjson" % (tag, os.getpid(), i))
+        common.write_ndjson(path, part)
+        todo.append((path, part))
+    rounds = 0
+    while todo:
+        rounds += 1
+        if rounds > 40:
+            raise common.ToolError("trace validation does not come to an end")
+        results = {r["file"]: r for r in common.tlc_traces("Trace_Syntax", "Trace_Syntax.cfg", [f for f, _ in todo], parallel=8)}
+        nxt = []
+        for path, part in todo:
+            res = results[path]
+            for v in iter_prints(res["output"], "V"):
+                verdicts[v["id"]] = v
+            os.remove(res["output"])
+            if res["accepted"]:
+                continue
+            m = res["matched"]
+            idx = 0
+            while idx < len(part) and m >= steps_of(part[idx]):
+                m -= steps_of(part[idx])
+                idx += 1
+            if idx >= len(part):
+                raise common.ToolError("Trace_Syntax: not accepted but every run matched (%s)" % path)
+            rejected.append(part[idx]["id"])
+            rest = part[idx + 1:]
+            if rest:
+                new = path[:-len(".ndjson")] + "r.ndjson"
+                common.write_ndjson(new, rest)
+                nxt.append((new, rest))
+        todo = nxt
+    return verdicts, rejected
+
+
+def part_corpus(rep, tier, seed, fnd, stats, selftest):
+    files = corpus_files()
+    if len(files) < 50:
+        raise common.ToolError("only %d corpus files under %s" % (len(files), common.REPO))
+    lst = scratch("syntax-corpus.list")
+    open(lst, "w").write("\n".join(files) + "\n")
+    out = scratch("syntax-mutants.ndjson")
+    n = MUTANTS[tier]
+    common.pvh(["mutate", lst, out, n, seed], exe_name=EXE, env=PVH_ENV)
+    out_files = scratch("syntax-files.ndjson")
+    common.pvh(["files", lst, out_files], exe_name=EXE, env=PVH_ENV)
+    mutants = {}
+    records = []
+    both = list(read_obs(out))
+    for m in read_obs(out_files):
+        if "id" in m:
+            m["id"] = "f%d" % m["id"]
+        both.append(m)
+    for m in both:
+        if "toolerror" in m:
+            raise common.ToolError("mutate: %s" % m["toolerror"])
+        if "crash" in m:
+            fnd.add("syntax-crash", "%s | corpus mutant %s" % (m["crash"], m.get("index")), {"family": "corpus", "index": m.get("index"), "seed": seed,
+                                                                                            "message": "the process died", "source_tokens": ""})
+            continue
+        mutants[m["id"]] = m
+        records.append(trace_record(m))
+    verdicts, rejected = validate(records, "c", {"quick": 8, "thorough": 24}[tier])
+    rejected = set(rejected)
+    by = collections.Counter()
+    samples = []
+    for rec in records:
+        m = mutants[rec["id"]]
+        v = verdicts.get(rec["id"])
+        if v is None:
+            raise common.ToolError("Trace_Syntax printed no verdict for run %s" % rec["id"])
+        by[v["v"]] += 1
+        if v["v"] == "lexical":
+            stats["corpus:lexical"] += 1
+            continue
+        o = m["o"]
+        rel = os.path.relpath(m["file"], common.REPO)
+        classes = [KIND_CLASS.get(x, "?") for x in o["k"]]
+        # the spellings are not recorded (files are long): the classes name the shape
+        hi = v["hi"]
+        ex = lambda msg, m=m, v=v, rel=rel: {"family": "corpus", "file": rel, "mut": m["mut"], "verdict": v, "message": msg,
+                                               "source_tokens": "%s %s" % (rel, json.dumps(m["mut"])),
+                                               "observation": {kk: vv for kk, vv in m["o"].items() if kk != "k"}}
+        before = len(fnd.by_key), sum(e["count"] for e in fnd.by_key.values())
+        judge("corpus", rec["id"], classes, classes, v, o, fnd, stats, rec["strict"], ex)
+        after = len(fnd.by_key), sum(e["count"] for e in fnd.by_key.values())
+        python_says_bad = after != before and not o.get("af", {}).get("p") and o["d"]["o"] != "panic"
+        tlc_says_bad = rec["id"] in rejected
+        if tlc_says_bad and after == before:
+            raise common.ToolError("Trace_Syntax rejects run %s (%s %s) but the comparison finds nothing: %s" % (rec["id"], rel, m["mut"], v))
+        if python_says_bad and not tlc_says_bad:
+            raise common.ToolError("the comparison reports run %s (%s %s) but Trace_Syntax accepts it: %s" % (rec["id"], rel, m["mut"], v))
+        if len(samples) < 3 and v["v"] == "invalid" and m["mut"]["op"] != "none":
+            samples.append({"file": rel, "mut": m["mut"], "tokens": len(classes), "verdict": {kk: v[kk] for kk in ("v", "lo", "hi", "exp")}})
+    untouched = [r for r in records if mutants[r["id"]]["mut"]["op"] == "none"]
+    log("[syntax] corpus: %d mutants of %d files judged by TLC over the real token stream: %s; %d runs rejected by Trace_Syntax" %
+        (len(records), len(files), dict(by), len(rejected)))
+    res = {"mutants": len(records), "files": len(files), "verdicts": dict(by), "rejected_by_tlc": len(rejected), "accepted_by_tlc": len(records) - len(rejected),
+           "samples": samples, "unmutated_files_judged": len(untouched)}
+    if selftest:
+        res["selftests"] = corpus_selftests(records, verdicts, rejected)
+    return res
+
+
+def corpus_selftests(records, verdicts, rejected):
+    """corrupt recorded observations: Trace_Syntax must reject exactly the corrupted runs"""
+    out = {}
+    good = [r for r in records if r["id"] not in rejected and len(r["k"]) < 1500]
+    val = [r for r in good if verdicts[r["id"]]["v"] == "valid"][:2]
+    inv = [r for r in good if verdicts[r["id"]]["v"] == "invalid" and r["strict"] and not verdicts[r["id"]]["soft"]][:3]
+    if len(val) < 2 or len(inv) < 3:
+        raise common.ToolError("self-test: not enough accepted runs to corrupt (%d valid, %d invalid)" % (len(val), len(inv)))
+    tests = [
+        ("valid_but_second_generation_rejects", dict(val[0], id="st1", d={"o": "rej"})),
+        ("valid_but_trees_differ", dict(val[1], id="st2", teq="no")),
+        ("invalid_but_accepted", dict(inv[0], id="st3", a={"acc": True, "fail": False, "t": []})),
+        ("diagnostic_one_token_late", dict(inv[1], id="st4", a=dict(inv[1]["a"], t=[verdicts[inv[1]["id"]]["hi"] + 1, verdicts[inv[1]["id"]]["hi"] + 1]))),
+        ("diagnostic_before_the_window", dict(inv[2], id="st5", a=dict(inv[2]["a"], t=[max(0, verdicts[inv[2]["id"]]["lo"] - 2)] * 2))),
+        ("intact_run_accepted", dict(inv[0], id="st6")),
+    ]
+    recs = [t[1] for t in tests]
+    _, rej = validate(recs, "selftest", 1)
+    for name, rec in tests:
+        out[name] = (rec["id"] in rej) if name != "intact_run_accepted" else (rec["id"] not in rej)
+    return out
+
+
+# ---------------------------------------------------------------------------------------------
+# the part as a whole: computed once per (tier, seed, tree under test, sources of the part), reported per property
+# ---------------------------------------------------------------------------------------------
+PROPERTY_KINDS = {
+    # first generation accepts what is valid / fails with diagnostics on what is not / does not die
+    "C02": {"syntax-alpha-rejects-valid", "syntax-alpha-accepts-invalid", "syntax-alpha-no-syntax-error", "syntax-alpha-silent",
+            "syntax-alpha-panic", "panic", "syntax-crash"},
+    # the first syntax diagnostic covers the offending text
+    "C13": {"syntax-alpha-location"},
+    # second generation: every well-formed module is accepted without diagnostics, no panic
+    "C15": {"syntax-delta-rejects-valid", "syntax-delta-panic", "syntax-crash"},
+    # second generation: every syntactically valid module is accepted, same tree as the first generation
+    "C16": {"syntax-delta-rejects-valid", "syntax-trees-differ"},
+}
+ALL_KINDS = set().union(*PROPERTY_KINDS.values())
+SOURCES = ["spec/SyntaxRules.tla", "spec/MC_SyntaxSeq.tla", "spec/MC_SyntaxGrammar.tla", "spec/Trace_Syntax.tla", "spec/PenneGrammar.tla",
+           "spec/PenneAst.tla", "spec/MC_PenneGrammar.tla", "checks/syntax_part.py", "checks/syntax_cfgs.py", "checks/grammar_cfgs.py",
+           "harness/src/bin/pvh_syntax.rs", "harness/src/syntax/observe.rs", "harness/src/grammar/render.rs",
+           "harness/src/grammar/alphaproj.rs", "harness/src/grammar/xml.rs", "harness/src/alpha.rs"]
+
+
+def repo_state():
+    def git(*a):
+        return subprocess.run(["git", "-C", common.REPO] + list(a), stdout=subprocess.PIPE, stderr=subprocess.DEVNULL, text=True).stdout
+    head = git("rev-parse", "HEAD").strip()
+    return head[:12] + "-" + hashlib.sha1((git("diff", "HEAD") + git("ls-files", "--others", "--exclude-standard")).encode()).hexdigest()[:10]
+
+
+def sources_state():
+    h = hashlib.sha1()
+    for rel in SOURCES + sorted(glob.glob(os.path.join(common.SPEC, "MC_Syntax*.cfg"))):
+        h.update(open(os.path.join(common.VERIF, rel), "rb").read())
+    return h.hexdigest()[:10]
+
+
+def compute(tier, seed, selftest, parts):
     fnd = Findings()
     stats = collections.Counter()
     cov = {}
+    state0 = repo_state()
+    t0 = time.time()
     if "seq" in parts:
-        cov["sequences"] = part_sequences(rep, tier, seed, fnd, stats)
+        cov["sequences"] = part_sequences(None, tier, seed, fnd, stats)
     if "faults" in parts:
-        cov["faults"] = part_faults(rep, tier, seed, fnd, stats)
-    fnd.report(rep, seed)
-    for key, cnt in fnd.notes.most_common():
-        rep.note_drift("syntax: %s (%d)" % (key, cnt))
-    cov["stats"] = dict(stats)
-    cov["notes"] = dict(fnd.notes)
-    return cov
+        cov["faults"] = part_faults(None, tier, seed, fnd, stats)
+    if "corpus" in parts:
+        cov["corpus"] = part_corpus(None, tier, seed, fnd, stats, selftest)
+        for name, ok in cov["corpus"].get("selftests", {}).items():
+            if not ok:
+                raise common.ToolError("self-test %s failed: Trace_Syntax does not detect a corrupted observation" % name)
+    if selftest:
+        cov["selftests"] = dict(cov.get("corpus", {}).get("selftests", {}), **compare_selftests())
+    if repo_state() != state0:
+        raise common.ToolError("the repository under test changed during the run: run the check again")
+    vac = vacuity(stats, parts)
+    if vac:
+        raise common.ToolError("vacuity: " + "; ".join(vac))
+    return {"findings": [[kind, key, e["count"], e["examples"]] for (kind, key), e in sorted(fnd.by_key.items())],
+            "notes": dict(fnd.notes), "note_examples": fnd.note_examples, "stats": dict(stats), "cov": cov, "parts": sorted(parts),
+            "selftested": bool(selftest), "wall": round(time.time() - t0, 1), "repo_state": state0}
+
+
+def vacuity(stats, parts):
+    """every rule must have been exercised in every family that ran"""
+    out = []
+    for fam in [f for f, p in (("seq", "seq"), ("fault", "faults"), ("corpus", "corpus")) if p in parts]:
+        for v in ("valid", "invalid", "unc"):
+            if stats.get("%s:%s" % (fam, v), 0) == 0:
+                out.append("no %s case in family %s" % (v, fam))
+    if stats.get("valid_both_accept_same_tree", 0) == 0:
+        out.append("no valid case accepted by both parsers with equal trees")
+    if stats.get("alpha_in_window", 0) == 0:
+        out.append("no invalid case with a diagnostic inside the window")
+    return out
+
+
+def compare_selftests():
+    """the comparison itself: corrupted verdicts / observations must be reported under the right kind"""
+    texts = "fn f ( ) { goto x }".split()
+    classes = ["fn", "id", "(", ")", "{", "goto", "id", "}"]
+    good = {"k": ["Fn", "Identifier", "ParenLeft", "ParenRight", "BraceLeft", "Goto", "Identifier", "BraceRight"], "n": 8,
+            "ap": [[300, 8, 8]], "af": {"ok": False, "stage": "resolve", "d": [[300, 8, 8]]}, "d": {"o": "rej", "d": [[300, 8, 8]]}}
+    verdict = {"v": "invalid", "lo": 7, "hi": 8, "u": 0, "exp": ";", "soft": False}
+    ok_obs = dict(good, ap=[], af={"ok": True, "stage": "resolve", "d": []}, d={"o": "ok", "d": []}, teq=True)
+
+    def kinds(v, o, strict=True):
+        f = Findings()
+        judge("selftest", 0, classes, texts, v, o, f, collections.Counter(), strict, lambda msg: {"message": msg})
+        return {k for k, _ in f.by_key}
+    return {
+        "intact_invalid_case_clean": kinds(verdict, good) == set(),
+        "missing_semicolon_accepted_is_reported": kinds(verdict, ok_obs) == {"syntax-alpha-accepts-invalid"},
+        "diagnostic_one_token_late_is_reported": kinds(verdict, dict(good, ap=[[300, 9, 9]])) == {"syntax-alpha-location"},
+        "diagnostic_before_window_is_reported": kinds(verdict, dict(good, ap=[[300, 5, 6]])) == {"syntax-alpha-location"},
+        "later_fault_tolerated_when_more_text_follows": kinds(verdict, dict(good, ap=[[300, 9, 9]]), strict=False) == set(),
+        "silent_failure_is_reported": "syntax-alpha-silent" in kinds(verdict, dict(good, af={"ok": False, "stage": "resolve", "d": []})),
+        "valid_rejected_by_first_generation_is_reported": kinds(dict(verdict, v="valid"), good) == {"syntax-alpha-rejects-valid"},
+        "valid_rejected_by_second_generation_is_reported": kinds(dict(verdict, v="valid"), dict(ok_obs, d={"o": "rej", "d": [[300, 8, 8]]})) == {"syntax-delta-rejects-valid"},
+        "different_trees_are_reported": kinds(dict(verdict, v="valid"), dict(ok_obs, teq=False, ta={"decls": []}, td={"decls": [1]})) == {"syntax-trees-differ"},
+        "flipped_verdict_is_reported": kinds(dict(verdict, v="valid"), good) != set() and kinds(verdict, ok_obs) != set(),
+    }
+
+
+def cached(tier, seed, selftest, parts):
+    os.makedirs(common.WORK, exist_ok=True)
+    prefix = "syntax-cache-%s-s%d-%s-" % (tier, seed, hashlib.sha1(os.path.realpath(common.REPO).encode()).hexdigest()[:6])
+    name = prefix + "%s-%s-%s.json" % (repo_state(), sources_state(), "".join(sorted(p[0] for p in parts)))
+    path = os.path.join(common.WORK, name)
+    if os.path.exists(path):
+        try:
+            d = json.load(open(path))
+            if d.get("selftested") or not selftest:
+                log("[syntax] re-using the run of this tree %s (%.0fs when it was computed)" % (name, d["wall"]))
+                d["cached"] = True
+                return d
+        except ValueError:
+            pass
+    import fcntl
+    with open(os.path.join(common.WORK, prefix + "lock"), "w") as lock:
+        fcntl.flock(lock, fcntl.LOCK_EX)        # another check may be computing the same run right now
+        if os.path.exists(path):
+            d = json.load(open(path))
+            if d.get("selftested") or not selftest:
+                log("[syntax] re-using the run another check has just computed (%s)" % name)
+                d["cached"] = True
+                return d
+        try:
+            d = compute(tier, seed, selftest, parts)
+        finally:
+            cleanup()
+        return store(d, path, prefix)
+
+
+def store(d, path, prefix):
+    for old in os.listdir(common.WORK):
+        if old.startswith(prefix) and old.endswith(".json"):
+            os.remove(os.path.join(common.WORK, old))
+    tmp = path + ".%d.tmp" % os.getpid()
+    json.dump(d, open(tmp, "w"))
+    os.replace(tmp, path)
+    d["cached"] = False
+    return d
+
+
+def run_part(rep, tier, seed, selftest, parts=None, kinds=None):
+    """Runs (or re-uses) the part and reports, through `rep`, the discrepancies that belong to rep.prop (PROPERTY_KINDS; `kinds`
+    overrides).  parts: subset of {"seq", "faults", "corpus"}.  Returns coverage numbers for the evidence of the calling check:
+    {states, transitions, cases, traces_accepted, evaluations, violations_reported, notes, sequences, faults, corpus, stats}."""
+    selftest = selftest or tier == "thorough"
+    common.build_harness(EXE)
+    parts = set(parts or ("seq", "faults", "corpus"))
+    kinds = set(kinds) if kinds is not None else PROPERTY_KINDS.get(rep.prop, ALL_KINDS)
+    d = cached(tier, seed, selftest, parts)
+    reported = 0
+    for kind, key, count, examples in d["findings"]:
+        if kind not in kinds:
+            continue
+        reported += 1
+        new = rep.violation(kind, key, {"kind": kind, "key": key, "inputs_affected_this_run": count, "seed": seed, "tier": tier, "part": "syntax",
+                                        "examples": examples, "how": "bin/check %s --replay <this file>" % rep.prop})
+        if not new:
+            k = rep.match_known(kind, key)
+            if k is not None:
+                rep.known_hits[k["id"]].extend([key] * (count - 1))
+    # soft observations: no property demands agreement there
+    soft = collections.Counter()
+    for key, cnt in d["notes"].items():
+        soft[re.sub(r": (expected|extension at) .*$", "", key)] += cnt
+    for key, cnt in soft.most_common(6):
+        rep.note_drift("syntax (soft, no property demands it): %s (%d inputs)" % (key, cnt))
+    cov = d["cov"]
+    out = {
+        "rule": "spec/SyntaxRules.tla: pushdown recogniser of the documented grammar over token classes, verdict valid | unc | invalid(lo, hi); "
+                "valid => no syntax error in the first-generation tree, second generation accepts, equal trees; invalid => first generation "
+                "fails with diagnostics and its first syntax diagnostic covers a token of the window",
+        "states": sum(cov.get(p, {}).get("states", 0) for p in ("sequences", "faults")),
+        "transitions": sum(cov.get(p, {}).get("transitions", 0) for p in ("sequences", "faults")),
+        "cases_replayed": sum(cov.get(p, {}).get("cases", 0) * cov.get(p, {}).get("layouts", 1) for p in ("sequences", "faults")),
+        "traces_accepted": cov.get("corpus", {}).get("accepted_by_tlc", 0),
+        "evaluations": d["stats"].get("evaluations", 0),
+        "verdicts": {k: v for k, v in d["stats"].items() if ":" in k},
+        "stats": d["stats"],
+        "derived_modules_accepted_by_the_recogniser": cov.get("faults", {}).get("modules", 0),
+        "discrepancies_of_this_property": reported,
+        "discrepancies_all_properties": len(d["findings"]),
+        "soft_notes": dict(soft),
+        "selftests": cov.get("selftests", {}),
+        "samples": [x for p in ("sequences", "faults", "corpus") for x in cov.get(p, {}).get("samples", [])][:6],
+        "per_focus": cov.get("faults", {}).get("per_focus", {}),
+        "corpus": {k: v for k, v in cov.get("corpus", {}).items() if k not in ("samples", "selftests")},
+        "reused_run": bool(d.get("cached")),
+        "wall_when_computed": d["wall"],
+    }
+    log("[syntax] %s: %d discrepancies for this property (%d in all), %d evaluations, soft notes %s" %
+        (rep.prop, reported, len(d["findings"]), out["evaluations"], dict(soft)))
+    return out
+
+
+def replay(path):
+    """bin/check Cxx --replay <file> for replay files written by this part (detail.part == "syntax")"""
+    d = json.load(open(path))
+    det = d["detail"]
+    print("property %s   kind=%s\nkey=%s\ninputs affected in that run: %s" % (d["property"], d["kind"], d["key"], det.get("inputs_affected_this_run")))
+    common.build_harness(EXE)
+    for ex in det.get("examples", []):
+        print("=" * 100)
+        print(ex.get("message", ""))
+        print("verdict of spec/SyntaxRules.tla (token indices, 1-based; n+1 = end of file):", json.dumps(ex.get("verdict")))
+        if ex.get("family") == "corpus":
+            print("corpus file %s, mutation %s" % (ex["file"], json.dumps(ex["mut"])))
+            print(common.pvh(["showmut", os.path.join(common.REPO, ex["file"]), json.dumps(ex["mut"])], exe_name=EXE).stdout)
+        elif ex.get("case"):
+            tmp = os.path.join(common.WORK, "syntax-replay-case.json")
+            json.dump(ex["case"], open(tmp, "w"))
+            print(common.pvh(["show", tmp, ex.get("layout") or 0, det.get("seed", 1)], exe_name=EXE).stdout)
+        else:
+            print(json.dumps(ex, indent=1)[:4000])
+    return 0
